@@ -148,6 +148,16 @@ Spec == Init /\ [][Next]_rules
 LineSeq == SX!SetToSeq(Lines)
 (* printed once: the lines (with what a pickle destination must emit for each) *)
 ASSUME PrintT("@@L " \o ToJson([i \in DOMAIN LineSeq |-> [line |-> LineSeq[i], pk |-> PickleOut(LineSeq[i])]]))
+(* long series names for the pickle encoder: the emitted pickle is the same function of the line
+   whatever the size of the name (lengths around every power of two up to 2048, i.e. well beyond any
+   fixed-size scratch buffer of the encoder) *)
+LongName(L) == [j \in 1..L |-> IF j <= 3 THEN foo[j] ELSE IF j % 23 = 4 THEN 46 ELSE 97 + (j % 26)]
+PkLongLens == {120, 127, 128, 200, 224, 230, 240, 247, 250, 252, 255, 256, 257, 260, 300, 511, 512, 700, 1024, 1500, 2047, 2048}
+PkLongLines ==
+    {[name |-> LongName(L), tags |-> TagLists[t], ts |-> "int", bad |-> FALSE] : L \in PkLongLens, t \in {1, 3}}
+    \cup {[name |-> LongName(L), tags |-> <<>>, ts |-> c, bad |-> FALSE] : L \in {255, 700}, c \in {"max", "float", "toobig"}}
+PkLongSeq == SX!SetToSeq(PkLongLines)
+ASSUME PrintT("@@PL " \o ToJson([i \in DOMAIN PkLongSeq |-> [line |-> PkLongSeq[i], pk |-> PickleOut(PkLongSeq[i])]]))
 Case == [rules |-> rules, md |-> [i \in DOMAIN LineSeq |-> MetricData(rules, LineSeq[i])]]
 Emit == PrintT("@@C " \o ToJson(Case))
 
